@@ -447,8 +447,15 @@ rngb = chk.rng('big')
 for total in (9998, 9999, 10000, 10001, 10002):
     cases.append(('big-%d' % total, big_case(rngb, total, rngb.choice([1, 2, 3]), 'big')))
 if chk.thorough:
-    for total in (99990, 99996, 99998, 99999, 100000, 100001, 100002):
-        cases.append(('huge-%d' % total, big_case(rngb, total, rngb.choice([8, 20, 50]), 'huge')))
+    # serials = atoms + one per TER record; up to 99999 the bonds must come back, beyond that the
+    # format cannot hold them (CONECT is switched off there: truncated serials would make the
+    # reader merge molecules) but atoms, order and molecule division still must
+    for total, nmol in ((99990, 8), (99991, 8), (99949, 50), (99979, 20)):
+        cases.append(('huge-%d-%d' % (total, nmol), big_case(rngb, total, nmol, 'huge')))
+    for total, nmol in ((99992, 8), (99999, 1), (100002, 20)):
+        c = big_case(rngb, total, nmol, 'huge')
+        c['conect'] = False
+        cases.append(('huge-%d-%d-noconect' % (total, nmol), c))
 
 
 # ----------------------------------------------------------------------------
@@ -465,6 +472,7 @@ def field_at_width(case, fmt):
     return sum(len(m['atoms']) + 1 for m in case['mols']) > 9999
 
 
+beyond = set()
 records = []   # (case id, op, protocol line, impl canonical, oracle errs, nontrivial, finding, use_oracle)
 
 
@@ -509,6 +517,14 @@ def run_pdb(cid, case):
     chk.count('pdb_read_' + impl_r.split()[0] + ('' if exc is None else '_' + impl_r.split()[1]))
     records.append((cid + '-pdbwrite', wline, impl_w, [], nontriv, None, True))
     rline = line('pdbread', [], False, text.split('\n'))
+    if nser > 99999 and 'CONECT' in text:
+        # outside the quantifier of the property (serials do not fit): truncated CONECT serials make the
+        # reader merge molecules, which the model does not follow; only "no column shifts" is checked
+        chk.count('pdb_beyond_serial_limit_with_conect')
+        beyond.add(cid + '-pdbread')
+        records.append((cid + '-pdbread', rline, impl_r, [e for e in errs if 'columns long' in e], nontriv, None,
+                        False))
+        return
     records.append((cid + '-pdbread', rline, impl_r, errs if use or finding else [], nontriv, finding, use))
 
 
@@ -566,6 +582,8 @@ for cid, case in cases:
 lines = [r[1] for r in records]
 models = chk.drv.ask(lines) if chk.lean_ok else [None] * len(lines)
 for (cid, ln, impl, errs, nontriv, finding, use), mo in zip(records, models):
+    if cid in beyond and mo == 'err unmodelled':
+        mo = None     # reader behaviour outside the model (merging molecules): oracle-only case
     chk.case(cid, ln, impl, mo, errs, nontriv, finding)
 if not any('F-C16-2' == k for k in known):
     chk.notes.append('atom names without an ASCII letter (and, for PDB, without element) make read_pdb/read_gro raise '
